@@ -22,6 +22,7 @@ mod c03;
 mod c14;
 mod c15;
 mod c06;
+mod c16;
 mod c19;
 
 fn main() {
@@ -56,6 +57,7 @@ fn main() {
         ["c14", "table", path] => c14::table(path),
         ["c14", "noncodes", n, path] => c14::noncodes(n.parse().unwrap(), path),
         ["c06", "record", runs, path] => c06::record(runs.parse().unwrap(), path),
+        ["c16", "replay", path] => c16::replay(path),
         _ => {
             eprintln!("usage: vh <prop> <replay|record> ...");
             std::process::exit(2);
